@@ -8,6 +8,7 @@ CONSTANTS
   DcmRoutes <- OneRoute
   RotRoutes <- OneRoute
   ConjRoutes <- OneRoute
+  QuatMethods <- NoMethods
   MaxDepth = 2
 CONSTRAINT Bound
 INVARIANT Faithful
